@@ -240,6 +240,14 @@ def main(tier, seed, replay):
         cplan.append(('s2c', (r, lon, lat), conv.add('s2c', core.hx(r), core.hx(lon), core.hx(lat))))
         x, y, z = (rng.uniform(-1e7, 1e7) for _ in range(3))
         cplan.append(('c2s', (x, y, z), conv.add('c2s', core.hx(x), core.hx(y), core.hx(z))))
+    # special points of the conversion: the centre (all signed zeros), vectors whose squared norm underflows, the axes, the poles,
+    # the antimeridian with y = +0 / -0
+    specials = [(sx * 0.0, sy * 0.0, sz * 0.0) for sx in (1.0, -1.0) for sy in (1.0, -1.0) for sz in (1.0, -1.0)]
+    for mag in (5e-324, 1e-300, 1e-200, 1e-170, 1e-160, 1e-150, 1e-30, 1.0, 6371000.0, 1e150):
+        for d in ((1, 0, 0), (-1, 0, 0), (0, 1, 0), (0, -1, 0), (0, 0, 1), (0, 0, -1), (1, 1, 1), (-1, 1e-8, 0), (-1, -1e-8, 0), (1e-9, 0, 1), (-1, 0.0, 0.5), (-1, -0.0, 0.5)):
+            specials.append(tuple(mag * t for t in d))
+    for (x, y, z) in specials:
+        cplan.append(('c2s', (x, y, z), conv.add('c2s', core.hx(x), core.hx(y), core.hx(z))))
     for _ in range(600 if quick else 12000):
         r = rng.choice([6371000.0, 1.0, rng.uniform(1e5, 7e6)])
         lon1, lat1 = rng.uniform(-PI, PI), math.asin(rng.uniform(-1, 1))
@@ -445,8 +453,19 @@ def check_conv(V, c, cplan):
             lon = math.atan2(y, x)
             lat = math.atan2(z, math.hypot(x, y))
             # compare positions (angles are ill conditioned near the poles): distance between the returned and the true point
+            if any(t != t or abs(t) == float('inf') for t in v):
+                V.violation('conversion:cartesian_to_spherical-not-finite', {'arg': arg, 'got': v})
+                continue
             bx, by, bz = v[0] * math.cos(v[2]) * math.cos(v[1]), v[0] * math.cos(v[2]) * math.sin(v[1]), v[0] * math.sin(v[2])
-            err = math.sqrt((bx - x) ** 2 + (by - y) ** 2 + (bz - z) ** 2) / r
+            hyp = math.sqrt(math.fsum(((bx - x) ** 2, (by - y) ** 2, (bz - z) ** 2))) if max(abs(x), abs(y), abs(z)) > 1e-150 else max(abs(bx - x), abs(by - y), abs(bz - z))
+            if r < 1e-140:
+                # the centre and vectors whose squared norm underflows: the round trip must come back to within 1e-140 m
+                if hyp > 1e-140:
+                    V.violation('conversion:cartesian_to_spherical-round-trip:centre', {'arg': arg, 'got': v, 'absolute_position_error': hyp})
+                else:
+                    V.nontrivial(('c2s-centre', arg))
+                continue
+            err = hyp / r
             pole = abs(lat) > math.radians(89.0)
             if err > (1e-12 if not pole else 1e-7):
                 V.violation('conversion:cartesian_to_spherical-round-trip:%s' % ('near-pole' if pole else 'general'), {'arg': arg, 'got': v, 'expected': (r, lon, lat), 'relative_position_error': err})
